@@ -96,6 +96,8 @@ class Ctx:
         self.dirvars: Dict[str, Any] = {}
         self.nodes: List["Node"] = []
         self.unsupported: List[str] = []
+        # configured custom scalars whose Python type is a plain builtin: the values the caller/server deals in are that type's
+        self.scalar_domain: Dict[str, str] = {}
 
     def fresh(self, pfx, sort="int"):
         self.n += 1
@@ -305,6 +307,11 @@ def leaf_conf_tags(ctx: Ctx, t) -> Optional[List[int]]:
             return list(range(ctx.S0, ctx.T_LIST))
         if t.name == "Boolean":
             return [1, 2]
+        dom = ctx.scalar_domain.get(t.name)
+        if dom == "str":
+            return list(range(ctx.S0, ctx.T_LIST))
+        if dom == "int":
+            return [3, 4, 5]
         return None
     raise AssertionError(t)
 
